@@ -79,6 +79,9 @@ def run_impl(lines, jobs=8):
 def run_model(lines, jobs=8):
     return run_lines(RXMODEL, [], lines, jobs)
 
+def run_spec(lines, jobs=8):
+    return run_lines(RXMODEL, ["spec"], lines, jobs)
+
 def run_oracle(case_lines, obs_lines, jobs=8):
     inter = []
     for c, o in zip(case_lines, obs_lines):
